@@ -723,6 +723,10 @@ func (i *Interpreter) ProcessDeliver() error {
 	} else if i.ctx.BackendResponse != nil {
 		i.ctx.Response = i.ctx.BackendResponse.Clone()
 	}
+	// e.g. return(deliver_stale) in vcl_miss without any stale object: there is nothing to deliver
+	if i.ctx.Response == nil {
+		return exception.Runtime(nil, "No response object to deliver")
+	}
 
 	// Add Fastly related server info but values are falco's one.
 	// Note that these headers could be removed in vcl_deliver subroutine
